@@ -26,17 +26,27 @@ LayoutChars == [probhat |-> JsonDeserialize(GenDir \o "/probhat_chars.json"),
 PreserveChars == {".", "?", "!", ",", ":", ";", "-", "_", ")", "}", "]", "'", "\""}
 Budget == 5000      \* ms per call
 
-VARIABLES l, cfg, comp, lastLen, shown, ongoing
-vars == <<l, cfg, comp, lastLen, shown, ongoing>>
+VARIABLES l, cfg, comp, lastLen, shown, ongoing,
+          upd       \* update-engine was called since the context was created
+vars == <<l, cfg, comp, lastLen, shown, ongoing, upd>>
 
 E == Rec[l]
 Is(ev) == l <= Len(Rec) /\ E.ev = ev
 Fail(msg) == PrintT(<<"TRACE-FAIL", l, msg>>) /\ FALSE
 Require(cond, msg) == IF cond THEN TRUE ELSE Fail(msg)
-On(f) == Focus = f \/ Focus = "ALL"
+\* Focus C11: the conjuncts that depend on the CONFIGURATION (C04 layout / number-pad gating, C12 helper rules, C02 kind of
+\* suggestion) are enforced for every event after an update-engine call, against the configuration passed to it
+\* ("option changes take effect at once, a changed layout switches method and layout")
+\* Focus C04: with all composition helpers off the rules of C12 are plain appending (plus the unconditional ones), so the
+\* text after a key is determined by the value the layout assigns to it - the C12 conjunct then decides C04 for keys
+\* pressed INSIDE a word.
+HelpersOff == cfg.method = "fixed" /\ ~cfg.o.vowel /\ ~cfg.o.chandra /\ ~cfg.o.kar /\ ~cfg.o.reph /\ ~cfg.o.karorder
+On(f) == \/ Focus = f \/ Focus = "ALL"
+         \/ (Focus = "C11" /\ upd /\ f \in {"C04", "C12", "C02"})
+         \/ (Focus = "C04" /\ f = "C12" /\ HelpersOff)
 
 NoCfg == [method |-> "none"]
-Init == l = 1 /\ cfg = NoCfg /\ comp = <<>> /\ lastLen = 0 /\ shown = FALSE /\ ongoing = FALSE
+Init == l = 1 /\ cfg = NoCfg /\ comp = <<>> /\ lastLen = 0 /\ shown = FALSE /\ ongoing = FALSE /\ upd = FALSE
 
 Phon == cfg.method = "phonetic"
 
@@ -63,7 +73,7 @@ SetLast == /\ lastLen' = (IF E.kind = "full" THEN E.len ELSE IF E.kind = "single
            /\ shown' = (E.kind \in {"single", "full"} /\ lastLen' > 0)
            /\ ongoing' = E.ongoing
 
-New == /\ Is("new") /\ cfg' = E.cfg /\ comp' = <<>> /\ lastLen' = 0 /\ shown' = FALSE /\ ongoing' = FALSE /\ l' = l + 1
+New == /\ Is("new") /\ cfg' = E.cfg /\ comp' = <<>> /\ lastLen' = 0 /\ shown' = FALSE /\ ongoing' = FALSE /\ upd' = FALSE /\ l' = l + 1
 
 Key ==
     /\ Is("key") /\ cfg # NoCfg
@@ -89,7 +99,7 @@ Key ==
                  /\ (On("C02") => Require(cfg.sug => (E.kind = "full" /\ E.rsel < E.len), "C02: fixed list expected, preselected index inside it"))
                  /\ (On("C06") => Require(IF cfg.o.karorder THEN (E.shown # <<>> => E.ongoing) ELSE E.ongoing = (E.shown # <<>>),
                                           "C06: session flag does not match the composed text"))
-    /\ SetLast /\ UNCHANGED cfg /\ l' = l + 1
+    /\ SetLast /\ UNCHANGED <<cfg, upd>> /\ l' = l + 1
 
 Backspace ==
     /\ Is("bs") /\ cfg # NoCfg
@@ -102,7 +112,7 @@ Backspace ==
                 /\ Require(E.kind = "empty" => ~E.ongoing, "C06: a backspace returned an empty suggestion but the session is still ongoing")
                 /\ Require((E.ctrl /\ ongoing) => (E.kind = "empty" /\ ~E.ongoing), "C06: ctrl-backspace must end the session"))
           /\ (On("C12") => Require((exact /\ ~Phon /\ E.kind # "empty") => E.shown = expected, "C12: backspace must remove exactly the last code point"))
-    /\ SetLast /\ UNCHANGED cfg /\ l' = l + 1
+    /\ SetLast /\ UNCHANGED <<cfg, upd>> /\ l' = l + 1
 
 Commit ==
     /\ Is("commit")
@@ -110,23 +120,26 @@ Commit ==
     /\ (On("C01") => Require(E.panic = "", "C01: commit panicked"))
     /\ E.panic = ""
     /\ (On("C06") => Require(~E.ongoing, "C06: still ongoing after a commit"))
-    /\ comp' = <<>> /\ lastLen' = 0 /\ shown' = FALSE /\ ongoing' = E.ongoing /\ UNCHANGED cfg /\ l' = l + 1
+    /\ comp' = <<>> /\ lastLen' = 0 /\ shown' = FALSE /\ ongoing' = E.ongoing /\ UNCHANGED <<cfg, upd>> /\ l' = l + 1
 
 Finish ==
     /\ Is("finish")
     /\ (On("C01") => Require(E.panic = "", "C01: finish panicked"))
     /\ E.panic = ""
     /\ (On("C06") => Require(~E.ongoing, "C06: still ongoing after finish"))
-    /\ comp' = <<>> /\ lastLen' = 0 /\ shown' = FALSE /\ ongoing' = E.ongoing /\ UNCHANGED cfg /\ l' = l + 1
+    /\ comp' = <<>> /\ lastLen' = 0 /\ shown' = FALSE /\ ongoing' = E.ongoing /\ UNCHANGED <<cfg, upd>> /\ l' = l + 1
 
 Update ==
     /\ Is("update")
     /\ Require(~ongoing /\ comp = <<>>, "driver left the contract: update-engine while a session is ongoing")
     /\ (On("C01") => Require(E.panic = "", "C01: update-engine panicked"))
     /\ E.panic = ""
-    /\ cfg' = E.cfg /\ comp' = <<>> /\ lastLen' = 0 /\ shown' = FALSE /\ ongoing' = E.ongoing /\ l' = l + 1
+    /\ cfg' = E.cfg /\ comp' = <<>> /\ lastLen' = 0 /\ shown' = FALSE /\ ongoing' = E.ongoing /\ upd' = TRUE /\ l' = l + 1
 
-Next == New \/ Key \/ Backspace \/ Commit \/ Finish \/ Update
+\* appended by the recorder's watchdog / signal handler: an engine call hung, or the code under test killed the process
+Panic == Is("panic") /\ Fail("an engine call did not return, or the process was killed by a fatal signal") /\ UNCHANGED vars
+
+Next == New \/ Key \/ Backspace \/ Commit \/ Finish \/ Update \/ Panic
 Spec == Init /\ [][Next]_vars
 
 Accepted ==
